@@ -128,6 +128,23 @@ def main(tier: str) -> int:
                     case["frames_off"] = wire.dec_stream(off, delimited=True)
                     case["back_off"] = _safe(impl.parse, integ, off, "flat")
                 cases.append(case)
+                # (3) the same statements as a plain ITERATOR (nothing to declare): switching declarations on must change nothing but the version
+                if bi % 3 == 0:
+                    for entry_i in (("stream_frames", "flat_to_file") if ptype != 3 else ("stream_frames",)):
+                        cfg_i = dict(cfg, entry=entry_i, as_sink=False)
+                        key_i = {"universe": uni, "integ": integ, "entry": entry_i + "-iterator", "sub": sub.label}
+                        rp_i = {"cfg": cfg_i, "statements": stmts}
+                        on_i = _safe(impl.serialize, cfg_i, stmts)
+                        off_i = _safe(impl.serialize, dict(cfg_i, nsdecl=False), stmts)
+                        for w, d_ in (("on", on_i), ("off", off_i)):
+                            if isinstance(d_, str):
+                                run.violation({"clause": "serializer-raised", **key_i}, f"statement iterator, nsdecl={w}: {d_}", rp_i)
+                        if isinstance(on_i, bytes) and isinstance(off_i, bytes):
+                            b_on, b_off = _safe(impl.parse, integ, on_i, "flat"), _safe(impl.parse, integ, off_i, "flat")
+                            if isinstance(b_on, str) or isinstance(b_off, str):
+                                run.violation({"clause": "parse-raised", **key_i}, str(b_on if isinstance(b_on, str) else b_off), rp_i)
+                            elif sorted(map(repr, (terms.norm_item(x) for x in b_on))) != sorted(map(repr, (terms.norm_item(x) for x in b_off))):
+                                run.violation({"clause": "statements-affected", **key_i}, "statement iterator: what is read back differs between nsdecl on and off", rp_i)
 
     verdicts = tlc.judge(traces)
     jstats = verdicts.pop("__stats__")
